@@ -727,8 +727,14 @@ def judge(c, r, fault_k=None):
         if not r['err'].strip():
             bad('C09 non-zero exit without a .sol and without a diagnostic on stderr: ' + sig_label(c))
             return 'nosol,exit!=0,silent', P
-        if c['kind'] in ('ok', 'convert', 'unsup', 'infeas', 'needb', 'chkfail', 'answer_odd') and want and not faulted:
-            bad('C09 no .sol for a readable model (%s): exit %s' % (sig_label(c), rc))
+        if want and not faulted:
+            # stderr is only the fallback "if no file can be written": legitimate when the .nl cannot be opened or the error
+            # is located in the NL header (lines 1-10: no dimensions known yet)
+            loc = re.search(r'\.nl:(\d+):\d+:', r['err'])
+            unreadable = c['stubmode'] in ('missing_nl', 'nl_is_dir', 'too_long', 'component_is_file', 'empty_stub', 'none') or r['nl'] is None
+            if not unreadable and not (loc and int(loc.group(1)) <= 10):
+                bad('C09 no .sol although the NL header was readable (failure only on stderr, exit %s): %s' % (rc, nosol_label(c, r['err'])))
+                return 'nosol,exit!=0,stderr,header-readable', P
         return 'nosol,exit!=0,stderr', P
     # ------------------------------------------------------------------ a .sol exists
     text = sol.decode('latin-1')
@@ -742,7 +748,8 @@ def judge(c, r, fault_k=None):
     except (ValueError, IndexError) as e:
         ps, perr = None, '%s: %s' % (type(e).__name__, str(e)[:80])
     fz = c.get('fault') or {}
-    short = fz.get('type') == 'fsize' and fault_k is not None and len(sol) < fz['n']
+    # under RLIMIT_FSIZE=k<n a file that is a proper prefix of the fault-free .sol is truncated even if it happens to parse
+    short = fz.get('type') == 'fsize' and fault_k is not None and len(sol) < fz['n'] and fz['ref'].startswith(sol.decode('latin-1'))
     if ps is None or (not text.endswith('\n')) or short:
         if faulted:
             if rc == 0:
@@ -783,7 +790,9 @@ def judge(c, r, fault_k=None):
     if rep == 'infeasibility proven during conversion':
         oc += ',infeasible'
         if not code_in(200, 299):
-            bad('C09 infeasibility proven during conversion reported with solve code class %s (expected 200-299)' % codeclass(code),
+            direct = any(re.match(r'^(x-VDRIVER [\d.]+:\s+)?Model infeasible', ln) for ln in msg.split('\n'))
+            bad('C09 infeasibility proven during conversion (%s) reported with solve code class %s (expected 200-299)' % (
+                'raised directly' if direct else 'raised inside a conversion wrapper', codeclass(code)),
                 code=code, message=msg[-300:])
     elif rep == 'solution check violation':
         oc += ',solution-check'
@@ -797,6 +806,8 @@ def judge(c, r, fault_k=None):
         bad('C09 code 200-299 without a message naming infeasibility: ' + sig_label(c), message=msg[:300])
     elif code_in(500, 999) and code != scripted and len(msg.strip()) < 20:
         bad('C09 failure code without a diagnostic message: ' + sig_label(c), message=msg)
+    if faulted and rep == 'other failure' and code_in(500, 999) and re.search(r'(?i)cannot (close|write|open)|No space|too large|write', msg):
+        return oc + ',write-failure-reported', P
     # ---- the cause must be the one the input has ---------------------------------------------
     succeeded = (rep is None and code == scripted)
     if k == 'ok':
@@ -864,6 +875,17 @@ def failure_kind(msg):
     if re.search(r'(?i)\bbound|big-?M|finite', body): return 'missing bounds'
     if re.search(r'(?i)error|fail|cannot|not supported|exception|bad_alloc|invalid|expected', body): return 'other failure'
     return None
+
+
+def nosol_label(c, err):
+    fam = c['id'].replace('san:', '').split('/')[0]
+    e = re.sub(r'/\S*/', '', err.strip().split('\n')[-1])
+    e = re.sub(r'\d+', 'N', e)[:70]
+    if fam == 'malformed':
+        return 'malformed input: ' + e
+    if fam == 'option':
+        return ('invalid option' if c['kind'].startswith('badopt') else 'valid option') + ': ' + e
+    return sig_label(c) + ': ' + e
 
 
 def wantsol_value(c):
@@ -942,7 +964,8 @@ def expand_fsize(cases, tier, bins):
         n = len(r0['sol']) if isinstance(r0['sol'], bytes) else 0
         out.append(c0)
         for k in range(n + 1):
-            out.append(dict(c, id='%s@%d' % (c['id'], k), cls=c['cls'] + (':k<len' if k < n else ':k=len'), fault={'type': 'fsize', 'k': k, 'n': n}))
+            out.append(dict(c, id='%s@%d' % (c['id'], k), cls=c['cls'] + (':k<len' if k < n else ':k=len'),
+                            fault={'type': 'fsize', 'k': k, 'n': n, 'ref': r0['sol'].decode('latin-1') if n else ''}))
     return out
 
 
@@ -960,8 +983,20 @@ def sol_msg(r):
     return None
 
 
+def build_driver(variant):
+    """vdriverlib.build, but a scratch tree ($VERIF_REPO) gets its own binary name: the shared build/bin/<variant>/vdriver is
+    used by other checks and must never be replaced by a mutated driver"""
+    if vbuild.REPO == '/repo':
+        return vdriverlib.build(variant)
+    import hashlib
+    jobs = [(os.path.join(vbuild.VERIF, 'checks/vdriver/vdriver.cc'), 'plain0' if variant == 'plain' else variant, (), '')]
+    jobs += [(s_, variant, (), '') for s_ in vbuild.LIBMP_SRCS]
+    objs = vbuild.compile_many(jobs)
+    return vbuild.link('vdriver_' + hashlib.sha1(vbuild.REPO.encode()).hexdigest()[:8], objs, variant)
+
+
 def build(variants=('plain',)):
-    return {v: vdriverlib.build(v) for v in variants}
+    return {v: build_driver(v) for v in variants}
 
 
 def selftest(chk):
@@ -971,9 +1006,10 @@ def selftest(chk):
     def j(sol, rc=0, k=None, cc=c):
         return judge(cc, {'rc': rc, 'out': '', 'err': '', 'sol': sol.encode() if sol is not None else None, 'nl': OKM.nl()}, fault_k=k)[1]
     ok = (not j(good)) and j(good[:40], k=40) and j(good.replace('\n3\n0\nobjno', '\n4\n0\nobjno')) and j(good.replace('500', '1')) \
-        and j(good.replace('floor', 'flour')) and j(None, rc=0) and j(None, rc=1) and not j(None, rc=1, cc=dict(c, kind='input')) is None
-    r1 = judge(dict(c, kind='input'), {'rc': 1, 'out': '', 'err': 'Error: x', 'sol': None, 'nl': ''})[1]
-    if not ok or r1:
+        and j(good.replace('floor', 'flour')) and j(None, rc=0) and j(None, rc=1)
+    r1 = judge(dict(c, kind='input'), {'rc': 1, 'out': '', 'err': 'Error: /d/m.nl:2:1: expected unsigned integer', 'sol': None, 'nl': ''})[1]
+    r2 = judge(dict(c, kind='input'), {'rc': 1, 'out': '', 'err': 'Error: /d/m.nl:14:1: expected expression', 'sol': None, 'nl': ''})[1]
+    if not ok or r1 or not r2:
         chk.broken.append('oracle self-test failed')
 
 
@@ -1067,8 +1103,8 @@ def absorb(chk, cases, results, tier, bins):
             fam_counts[fam] = fam_counts.get(fam, 0) + 1
             classes.add('%s -> %s' % (re.sub(r'^(malformed:[^:]+(?::[^:]+)?).*', r'\1', r['cls']), r['oc']))
             code = r.get('code')
-            if code is not None and 200 <= code <= 299: n2 += 1
-            if code is not None and 500 <= code <= 999: n5 += 1
+            if code is not None and 200 <= code <= 299 and ',infeasible' in r['oc']: n2 += 1
+            if code is not None and 500 <= code <= 999 and re.search(r',(invalid-option|unsupported-construct|NL-read-error|missing-bounds|other-failure)', r['oc']): n5 += 1
             if isinstance(r['rc'], int) and r['rc'] != 0: nnz += 1
             if r['fault']: nfault += 1
             if r.get('sample') and (nrun % 97 == 1 or r['P']):
@@ -1090,14 +1126,14 @@ def absorb(chk, cases, results, tier, bins):
     chk.set('evaluations', nrun)
     chk.set('runs_per_family', fam_counts)
     chk.set('cases', len(cases))
-    chk.set('runs_code_200_299', n2); chk.set('runs_code_500_999', n5); chk.set('runs_nonzero_exit', nnz)
+    chk.set('runs_infeasible_by_conversion_200_299', n2); chk.set('runs_diagnosed_failure_500_999', n5); chk.set('runs_nonzero_exit', nnz)
     chk.set('fault_injected_runs', nfault)
     chk.set('states', len(classes)); chk.set('transitions', nrun)
     chk.set('traces_validated_against_impl', nrun)
     chk.set('violating_runs', sum(a['n'] for a in agg.values()))
     vcheck.finalize_classes(chk)
-    if n2 == 0: chk.broken.append('vacuous: no run ended with a 200-299 code')
-    if n5 == 0: chk.broken.append('vacuous: no run ended with a 500-999 code')
+    if n2 == 0: chk.broken.append('vacuous: no conversion-proven infeasibility ended with a 200-299 code')
+    if n5 == 0: chk.broken.append('vacuous: no driver-diagnosed failure ended with a 500-999 code')
     if nnz == 0: chk.broken.append('vacuous: no run ended with a non-zero exit status')
     if nfault == 0: chk.broken.append('vacuous: no fault-injected run')
     if chk.cov['distinct_nontrivial'] < 30: chk.broken.append('vacuous: fewer than 30 observation classes')
